@@ -405,7 +405,7 @@ pub fn campaigns(ctx: &Ctx) -> Stats {
             Some(Case7::F(FwdCase { op, leaves: vec![LeafSpec { dims: d, vals, tracked: false }], force_exact: None, second_is_view_of_first: None }))
         }));
     }
-    let (max_rank, max_size, total) = t.pick((4usize, 9usize, 40000u64), (5, 13, 600000));
+    let (max_rank, max_size, total) = t.pick((4usize, 9usize, 160000u64), (5, 13, 600000));
     let nops = 6 + map_ops().len();
     let strat = move || (prop::collection::vec(1..=max_size, 1..=max_rank), 0..nops, any::<u8>(), -3.0f64..4.0, any::<u64>()).prop_map(|(dims, opi, p, e, vseed)| R7 { dims, opi, p, e: (e * 64.0).round() / 64.0, vseed }).boxed();
     st.merge(ctx.run_prop("random-shapes-and-values", total, strat, random_case));
